@@ -16,6 +16,11 @@ HARNESSES = {
     'c20_gate_monotone': dict(complete=True, quick=True, timeout=300, domain='all pairs of versions x all thresholds'),
     'k_player_bytes_8_4': dict(complete=False, bound='instantiation N=8, M=4; slice length <= 40, all contents', quick=True, timeout=900, domain='all byte contents, all lengths 0..40'),
     'c20_parse_u8_len4': dict(complete=False, bound='ASCII strings of length <= 4 (every content)', quick=True, timeout=600, domain='all ASCII strings of length 0..4'),
+    'kcodec_pre_read_push': dict(complete=True, quick=False, timeout=1800, domain='all (major, minor) versions x all contents of a full-length Pre payload (+2 spare bytes), on the compiled crate; generated from spec/frame_layout.json (the short-payload error path is Verus-only)'),
+    'kcodec_post_read_push': dict(complete=True, quick=False, timeout=4500, domain='all (major, minor) versions x all contents of a full-length Post payload (+2 spare bytes), on the compiled crate; generated from spec/frame_layout.json (the short-payload error path is Verus-only)'),
+    'kcodec_start_read_push': dict(complete=True, quick=False, timeout=900, domain='all (major, minor) versions x all contents of a full-length Start payload (+2 spare bytes), on the compiled crate; generated from spec/frame_layout.json (the short-payload error path is Verus-only)'),
+    'kcodec_end_read_push': dict(complete=True, quick=False, timeout=900, domain='all (major, minor) versions x all contents of a full-length End payload (+2 spare bytes), on the compiled crate; generated from spec/frame_layout.json (the short-payload error path is Verus-only)'),
+    'kcodec_item_read_push': dict(complete=True, quick=False, timeout=2400, domain='all (major, minor) versions x all contents of a full-length Item payload (+2 spare bytes), on the compiled crate; generated from spec/frame_layout.json (the short-payload error path is Verus-only)'),
     'kshim_byteorder_be': dict(complete=True, quick=False, timeout=600, domain='all contents of an 8-byte slice x all lengths 0..8 (assumed shim contract of byteorder readers, checked on the real crate)'),
     'kshim_byteorder_write_be': dict(complete=True, quick=False, timeout=600, domain='all u8/u16/u32/i32 values (assumed shim contract of byteorder writers on Vec<u8>)'),
     'c19_fix_char': dict(complete=True, quick=True, timeout=300, domain='all Unicode scalar values'),
